@@ -214,9 +214,13 @@ class CallListerVisitor(ast.NodeVisitor):
         self.varargs = None
         self.varkwargs = None
 
+        self.revisiting = False
         self.process_parameters(func.args, main=True)
         for stmt in func.body:
             self.visit(stmt)
+        # calls found in the arguments of a deferred call run before it does:
+        # they are processed on the spot, as in the main scope
+        self.revisiting = True
         for node, ns in self.to_revisit:
             self.namespace = ns
             self.process_Call(node)
@@ -321,7 +325,7 @@ class CallListerVisitor(ast.NodeVisitor):
             hide_args, hide_kwargs))
 
     def visit_Call(self, node):
-        if self.namespace.parent is None:
+        if self.namespace.parent is None or self.revisiting:
             self.process_Call(node)
         else:
             self.to_revisit.append((node, self.namespace))
